@@ -184,7 +184,7 @@ TARGETS = {
 }
 
 
-def render_cli(name, files, init_args, tdir, render_args=("--force",), timeout=900):
+def render_cli(name, files, init_args, tdir, render_args=("--force",), timeout=900, edit_config=None):
     """Drive the real command line: `naunet init <options>` then `naunet render` in a
     fresh directory <work>/<tdir>; returns a Project whose only target is tdir."""
     ensure_venv()
@@ -211,6 +211,12 @@ def render_cli(name, files, init_args, tdir, render_args=("--force",), timeout=9
         if r.returncode != 0:
             meta = {"ok": False, "error": f"naunet {args[0]} exited with {r.returncode}: {(r.stderr or r.stdout)[-600:]}", "targets": {tdir: {"ok": False, "error": (r.stderr or r.stdout)[-600:]}}}
             break
+        if args[0] == "init" and edit_config is not None:
+            # the user edits naunet_config.toml by hand between init and render
+            cfgp = os.path.join(pdir, "naunet_config.toml")
+            txt = open(cfgp).read()
+            with open(cfgp, "w") as fh:
+                fh.write(edit_config(txt))
     meta["log"] = log[-3000:]
     cfg = os.path.join(pdir, "naunet_config.toml")
     if os.path.exists(cfg):
